@@ -18,6 +18,7 @@
 From Coq Require Import String Ascii List Bool ZArith NArith.
 Import ListNotations.
 From ACH Require Import Bytes JsonCodec JsonSurvive JsonPostTable Layout FileStruct.
+From ACH Require Arith.
 Local Open Scope string_scope.
 Local Open Scope list_scope.
 
@@ -97,7 +98,13 @@ Definition sset (r : rtree) (f : string) (s : bytes) : rtree := RT (rname r) (rs
 Definition iset (r : rtree) (f : string) (z : Z) : rtree := RT (rname r) (rset (rscal r) f (VI z)) (rkids r).
 Definition kid (r : rtree) (k : string) : list rtree := kget (rkids r) k.
 Definition set_kid (r : rtree) (k : string) (ns : list rtree) : rtree := RT (rname r) (rscal r) (kset (rkids r) k ns).
-Definition map_kid (r : rtree) (k : string) (f : rtree -> rtree) : rtree := set_kid r k (map f (kid r k)).
+(* apply f to every node stored under k (nothing happens if there is no such field) *)
+Fixpoint kmap (ks : list (string * list rtree)) (k : string) (f : rtree -> rtree) : list (string * list rtree) :=
+  match ks with
+  | [] => []
+  | (g, ns) :: ks' => if String.eqb k g then (g, map f ns) :: ks' else (g, ns) :: kmap ks' k f
+  end.
+Definition map_kid (r : rtree) (k : string) (f : rtree -> rtree) : rtree := RT (rname r) (rscal r) (kmap (rkids r) k f).
 
 Definition bstr (s : string) : bytes := bytes_of_string s.
 Definition sec_is (h : rtree) (sec : string) : bool := bytes_eqb (sget h "StandardEntryClassCode") (bstr sec).
@@ -375,8 +382,38 @@ Fixpoint build_adv_entries (seq : Z) (es : list rtree) : outcome (list rtree) :=
 
 Definition adv_count (es : list rtree) : Z := fold_left (fun n e => n + 1 + Z.of_nat (length (kid e "Addenda99"))) es 0.
 
+(* ---- upsertOffsets helpers *)
+Definition upper_byte (b : N) : N := if ((97 <=? b) && (b <=? 122))%N then (b - 32)%N else b.
+Definition OFFSET : bytes := [79; 70; 70; 83; 69; 84]%N.
+(* strings.EqualFold(name, "OFFSET") on ASCII (the long s and other fold partners are not modelled) *)
+Definition is_offset_name (s : bytes) : bool := bytes_eqb (map upper_byte s) OFFSET.
+
+(* CheckRoutingNumber *)
+Definition routing_ok (rn : bytes) : bool :=
+  match rn with
+  | [] => false
+  | _ => (rune_count rn =? 9)%nat && (ACH.Model.Arith.calc_check_digit rn =? Z.of_N (last rn 0%N) - 48)
+  end.
+
+(* fmt.Sprintf("%15.15d", n) *)
+Definition pad15 (n : Z) : bytes :=
+  let body := itoa (Z.abs n) in
+  (if n <? 0 then [45%N] else []) ++ zeros (15 - length body) ++ body.
+
+Definition last_trace (es : list rtree) : Z :=
+  match rev es with
+  | e :: _ => match atoi_opt (sget e "TraceNumber") with Some n => n | None => 0 end
+  | [] => 0
+  end.
+
+Definition checking : bytes := [99; 104; 101; 99; 107; 105; 110; 103]%N.
+Definition savings : bytes := [115; 97; 118; 105; 110; 103; 115]%N.
+
 Section Post.
   Variable T : post_table.
+  Variable rm_credit_codes : list Z.           (* upsertOffsets: codes whose amount is taken off the credit total *)
+  Variable deb_chk deb_sav cre_chk cre_sav : Z.  (* transaction codes of the offset entries per account type *)
+  Variable new_entry_detail : rtree.           (* NewEntryDetail() *)
   Variable merge_fields : list string.         (* ValidateOpts.merge (Gen/JsonTags.opts_merge_fields) *)
   Variable credit_codes debit_codes : list Z.  (* calculateBatchAmounts (Gen/OffsetTable) *)
   Variable new_batch_control new_adv_batch_control new_file_control new_adv_file_control zero_adv_file_control : rtree.
@@ -386,6 +423,55 @@ Section Post.
   Variable file_valid : rtree -> bool.                        (* File.Validate() == nil *)
 
   Definition header_of (b : rtree) : rtree := match kid b "Header" with h :: _ => h | [] => empty_node end.
+
+  (* the removal loop of upsertOffsets (with Entries[i+1:] and i--: every OFFSET entry is removed) *)
+  Fixpoint remove_offsets (es : list rtree) (c : rtree) : list rtree * rtree :=
+    match es with
+    | [] => ([], c)
+    | e :: r =>
+        if is_offset_name (sget e "IndividualName") then
+          let c1 := if zmem (iget e "TransactionCode") rm_credit_codes
+                    then iset c "TotalCreditEntryDollarAmount" (iget c "TotalCreditEntryDollarAmount" - iget e "Amount")
+                    else iset c "TotalDebitEntryDollarAmount" (iget c "TotalDebitEntryDollarAmount" - iget e "Amount") in
+          remove_offsets r (iset c1 "EntryAddendaCount" (iget c1 "EntryAddendaCount" - 1))
+        else let '(r', c') := remove_offsets r c in (e :: r', c')
+    end.
+
+  Definition offset_entry (off : rtree) (kept : list rtree) (code amount trace : Z) : rtree :=
+    let rn := sget off "RoutingNumber" in
+    let e1 := sset new_entry_detail "RDFIIdentification" (firstn 8 rn) in
+    let e2 := sset e1 "CheckDigit" (firstn 1 (skipn 8 rn)) in
+    let e3 := sset e2 "DFIAccountNumber" (sget off "AccountNumber") in
+    let e4 := sset e3 "IdentificationNumber" [] in
+    let e5 := sset e4 "IndividualName" OFFSET in
+    let e6 := sset e5 "DiscretionaryData" (sget off "Description") in
+    let e7 := match kept with e :: _ => sset e6 "Category" (sget e "Category") | [] => e6 end in
+    iset (iset (sset e7 "TraceNumber" (pad15 trace)) "Amount" amount) "TransactionCode" code.
+
+  (* upsertOffsets on a non-ADV batch whose entries and control have just been rebuilt *)
+  Definition upsert_offsets (b : rtree) (es : list rtree) (c : rtree) (off : rtree) : outcome rtree :=
+    if negb (routing_ok (sget off "RoutingNumber")) then Bad "build:offset-routing"
+    else
+      let '(kept, c0) := remove_offsets es c in
+      let at_ := sget off "AccountType" in
+      let chk := bytes_eqb at_ checking in
+      if negb chk && negb (bytes_eqb at_ savings) then Bad "build:offset-type"
+      else
+        let lastn := last_trace kept in
+        let damt := iget c0 "TotalCreditEntryDollarAmount" in
+        let camt := iget c0 "TotalDebitEntryDollarAmount" in
+        let ded := offset_entry off kept (if chk then deb_chk else deb_sav) damt (lastn + 1) in
+        let ced := offset_entry off kept (if chk then cre_chk else cre_sav) camt (lastn + (if damt =? 0 then 1 else 2)) in
+        let es1 := if damt =? 0 then kept else kept ++ [ded] in
+        let c1 := if damt =? 0 then c0
+                  else iset (iset c0 "EntryAddendaCount" (iget c0 "EntryAddendaCount" + 1))
+                            "TotalDebitEntryDollarAmount" (iget c0 "TotalDebitEntryDollarAmount" + damt) in
+        let es2 := if camt =? 0 then es1 else es1 ++ [ced] in
+        let c2 := if camt =? 0 then c1
+                  else iset (iset c1 "EntryAddendaCount" (iget c1 "EntryAddendaCount" + 1))
+                            "TotalCreditEntryDollarAmount" (iget c1 "TotalCreditEntryDollarAmount" + camt) in
+        let c3 := iset (iset c2 "ServiceClassCode" 200) "EntryHash" (entry_hash es2) in
+        Good (set_kid (set_kid (map_kid b "Header" (fun h => iset h "ServiceClassCode" 200)) "Entries" es2) "Control" [c3]).
 
   (* Batch.build under the batch's options [o] (already stored on the batch) *)
   Definition build_batch (o : list rtree) (b : rtree) : outcome rtree :=
@@ -407,7 +493,7 @@ Section Post.
                let c8 := iset c7 "TotalDebitEntryDollarAmount" (zsum (debit_of credit_codes debit_codes) es') in
                match kid b "offset" with
                | [] => Good (set_kid (set_kid b "Entries" es') "Control" [c8])
-               | _ => Bad "unmodelled:offset"
+               | off :: _ => upsert_offsets b es' c8 off
                end)
            else
              bind (build_adv_entries 1 advs) (fun advs' =>
@@ -496,6 +582,16 @@ Section Post.
 
   Definition is_adv_file (f : rtree) : bool := existsb (fun b => sec_is (header_of b) "ADV") (kid f "Batches").
 
+  (* File.IsADV also repairs what it walks over: a batch without a control gets NewBatchControl(),
+     up to and including the first ADV batch (batches without a header have been dropped before) *)
+  Fixpoint isadv_fill (bs : list rtree) : list rtree :=
+    match bs with
+    | [] => []
+    | b :: r =>
+        let b' := match kid b "Control" with [] => set_kid b "Control" [new_batch_control] | _ => b end in
+        if sec_is (header_of b) "ADV" then b' :: r else b' :: isadv_fill r
+    end.
+
   (* "create ascending batch numbers unless batch number has been provided" *)
   Definition renumber1 (ctl : string) (seq : Z) (b : rtree) : rtree :=
     if (iget (header_of b) "BatchNumber" <=? 1)
@@ -577,13 +673,15 @@ Section Post.
       | Bad s => PErr s
       | Good ibs =>
         let f2 := set_kid (set_kid f1 "Batches" bs) "IATBatches" ibs in
-        let f3 := overwrite_dates f2 in
+        let f3a := overwrite_dates f2 in
+        let f3 := set_kid f3a "Batches" (isadv_fill (kid f3a "Batches")) in
         (* the control that belongs to the kind of file is decoded, the other keeps the constructor's value; then BatchCount *)
         let n := Z.of_nat (length (kid f3 "Batches")) in
         let f4 := if negb (is_adv_file f3)
                   then set_kid (map_kid f3 "Control" (fun c => iset c "BatchCount" n)) "ADVControl" [zero_adv_file_control]
                   else set_kid (set_kid f3 "Control" [new_file_control])
-                               "ADVControl" (map (fun c => iset c "BatchCount" n) (kid d "advFileControl")) in
+                               "ADVControl" (map (fun c => iset c "BatchCount" n)
+                                                 (match kid d "ADVControl" with [] => [new_adv_file_control] | l => l end)) in
         let '(f5, ok) := create o f4 in
         if negb ok then PInvalid f5
         else if file_valid f5 then POk f5 else PInvalid f5
